@@ -291,4 +291,26 @@ example : ∃ x : Vec (Ext ℝ) 2, (∀ i, x i ≠ Ext.nan) ∧ ∃ i a, x i = E
   refine ⟨Vec.of (fun i => if i = 0 then Ext.negInf else Ext.fin 3), fun i => ?_, 1, 3, by simp⟩
   by_cases h : i = 0 <;> simp [h]
 
+/-! ### Deepening round -/
+
+/-- `max ≤ LSE x ≤ max + log n`: the result is within `log n` of the largest entry. -/
+theorem lse_bounds (x : Vec ℝ (n + 1)) :
+    vmax x ≤ logSumExp x ∧ logSumExp x ≤ vmax x + Real.log (n + 1 : ℕ) := by
+  obtain ⟨-, -, h1, h2⟩ := lse_args_bounded x
+  rw [logSumExp_real]
+  have hpos : (0 : ℝ) < ∑ i, Real.exp (x i - vmax x) := lt_of_lt_of_le one_pos h1
+  constructor
+  · have := Real.log_nonneg h1
+    linarith
+  · have := Real.log_le_log hpos h2
+    linarith
+
+/-- Subtracting the log-sum-exp normalises: `Σ exp(xᵢ − LSE x) = 1` (how the particle filters normalise
+    log-weights). -/
+theorem lse_normalizes (x : Vec ℝ (n + 1)) : ∑ i, Real.exp (x i - logSumExp x) = 1 := by
+  rw [lse_eq_log_sum_exp]
+  have hpos : 0 < ∑ i, Real.exp (x i) := Finset.sum_pos (fun i _ => Real.exp_pos _) Finset.univ_nonempty
+  simp_rw [Real.exp_sub, Real.exp_log hpos]
+  rw [← Finset.sum_div, div_self hpos.ne']
+
 end BFL
